@@ -1,9 +1,218 @@
 import BoltonsVerif.C19.Proofs
+/-
+C19 — property theorems for the line readers (statements, short derivations from
+`Proofs.lean`, non-vacuity examples).
+
+Texts / contents are `List Nat` (code points / bytes; 10 = LF, 13 = CR).  Everything is
+for ALL texts, contents and block sizes ≥ 1.  `json.loads` is a parameter `parse`.
+-/
 namespace C19
 
-/-- the alternatives of `_line_ending_re` (regenerated from the source) are exactly the eight
-    line breaks of the statement, `\r\n` before `\r` -/
+/-! ## the translator-generated table -/
+
+/-- the alternatives of `_line_ending_re` (regenerated from the source on every run) are exactly
+    the eight line breaks of the statement, CRLF first (so that CR LF is one break) -/
 theorem lineEndings_exact :
     Generated.lineEndings = [[13, 10], [10], [11], [12], [13], [133], [8232], [8233]] := by decide
+
+theorem lineEndings_eq_E : Generated.lineEndings = E := lineEndings_exact
+
+/-! ## iter_splitlines -/
+
+/-- `iter_splitlines(t)` yields exactly `str.splitlines(t)`, plus one final empty string when
+    `t` ends with a line break — for every text whose line breaks are the eight forms, i.e.
+    without U+001C..U+001E, which `str.splitlines` alone honours -/
+theorem splitlines_spec (t : List Nat) (h : ∀ c ∈ t, isFS c = false) :
+    iterSplitlines t = pySplitlines t ++ (if endsWithBreak t then [[]] else []) := by
+  unfold iterSplitlines iterPieces
+  rw [lineEndings_eq_E]
+  exact scan_lines t.length t (Nat.le_refl _) h
+
+/-- nothing is lost or invented: the yielded lines, each followed by the line ending that was
+    matched after it, concatenate to the text -/
+theorem pieces_rejoin (t : List Nat) : (iterPieces t).flatMap (fun p => p.1 ++ p.2) = t := by
+  unfold iterPieces
+  rw [lineEndings_eq_E]
+  exact (scan_pieces t.length t (Nat.le_refl _)).1
+
+/-- it never splits anywhere else, and splits at every break: what separates two yielded lines is
+    one of the eight line endings, and no yielded line contains a line-break character -/
+theorem no_other_splits (t : List Nat) :
+    ∀ p ∈ iterPieces t, (∀ c ∈ p.1, lineBreakChar c = false) ∧
+      (p.2 = [] ∨ p.2 ∈ Generated.lineEndings) := by
+  unfold iterPieces
+  rw [lineEndings_eq_E]
+  exact (scan_pieces t.length t (Nat.le_refl _)).2
+
+/-- in particular a non-empty text without line-break characters comes back as one line -/
+theorem no_break_one_line (t : List Nat) (hne : t ≠ []) (h : ∀ c ∈ t, lineBreakChar c = false) :
+    iterSplitlines t = [t] := by
+  unfold iterSplitlines iterPieces
+  rw [lineEndings_eq_E, scan_none _ _ _ (splitFirst_none_of t h)]
+  simp [hne]
+
+/-! ## reverse_iter_lines -/
+
+/-- for every block size ≥ 1 the loop yields the lines of the content — `bytes.splitlines()` plus a
+    final empty line when the content ends with LF — last to first -/
+theorem reverse_lines (c : List Nat) (bs : Nat) (hbs : 1 ≤ bs) :
+    reverseIterLines c bs = (linesOf c).reverse := by
+  unfold reverseIterLines
+  rw [revLoop_spec c bs hbs c.length c.length [] (Nat.le_refl _)]
+  simp
+
+/-- the statement's reading: when no CR stands alone, those are the LF- or CRLF-separated
+    pieces of the content (`sepLines`), last to first, each without its line break -/
+theorem reverse_lines_separated (c : List Nat) (bs : Nat) (hbs : 1 ≤ bs)
+    (hne : c ≠ []) (hcr : noLoneCR c = true) :
+    reverseIterLines c bs = (sepLines c).reverse := by
+  rw [reverse_lines c bs hbs, linesOf_eq_sepLines c hcr hne]
+
+/-- an empty file has no lines -/
+theorem reverse_lines_empty (bs : Nat) : reverseIterLines [] bs = [] := by
+  simp [reverseIterLines, revLoop, flush]
+
+/-- identical result for every block size (from 1 byte to larger than the file) -/
+theorem blocksize_independent (c : List Nat) (bs₁ bs₂ : Nat) (h₁ : 1 ≤ bs₁) (h₂ : 1 ≤ bs₂) :
+    reverseIterLines c bs₁ = reverseIterLines c bs₂ := by
+  rw [reverse_lines c bs₁ h₁, reverse_lines c bs₂ h₂]
+
+/-- no yielded line contains a LF or CR: bytes of a multi-byte character (all ≥ 128) are never
+    separated from each other, whatever the block size -/
+theorem reverse_lines_unbroken (c : List Nat) (bs : Nat) (hbs : 1 ≤ bs) :
+    ∀ l ∈ reverseIterLines c bs, ∀ x ∈ l, bytesBreak x = false := by
+  rw [reverse_lines c bs hbs]
+  intro l hl
+  simp only [List.mem_reverse, linesOf, List.mem_append] at hl
+  rcases hl with hl | hl
+  · exact aux_all_noBrk bytesBreak false c l hl
+  · split at hl
+    · simp at hl; subst hl; intro x hx; cases hx
+    · cases hl
+
+/-! ## JSONLIterator -/
+
+variable {α ε : Type}
+
+/-- forward mode over a binary file, `ignore_errors=True`: exactly the objects of the non-blank,
+    decodable LF/CRLF-separated lines, in order, and no error -/
+theorem jsonl_forward_binary (parse : List Nat → Except ε α) (hp : IgnoresBreak parse)
+    (c : List Nat) (hcr : noLoneCR c = true) :
+    jsonlForwardB parse true c = ((sepLines c).filterMap (objOf parse), none) := by
+  unfold jsonlForwardB
+  rw [consume_ignore, ← filterMap_fileLinesB',
+    filterMap_rel parse hp _ _ (fileLinesB'_rel c hcr)]
+
+/-- forward mode over a text-mode file (universal newlines), `ignore_errors=True` -/
+theorem jsonl_forward_text (parse : List Nat → Except ε α) (hp : IgnoresBreak parse) (c : List Nat) :
+    jsonlForwardT parse true c = ((bytesSplitlines c).filterMap (objOf parse), none) := by
+  unfold jsonlForwardT bytesSplitlines
+  rw [consume_ignore, filterMap_rel parse hp _ _ (fileLinesT_rel false c)]
+
+/-- reverse mode, any block size ≥ 1, `ignore_errors=True` -/
+theorem jsonl_reverse (parse : List Nat → Except ε α) (c : List Nat) (bs : Nat) (hbs : 1 ≤ bs) :
+    jsonlReverse parse true bs c = (((bytesSplitlines c).filterMap (objOf parse)).reverse, none) := by
+  unfold jsonlReverse
+  rw [consume_ignore, reverse_lines c bs hbs, List.filterMap_reverse, filterMap_linesOf]
+
+/-- reverse mode yields the objects of forward mode, reversed — text-mode files, every content,
+    whatever the file size relative to the block size -/
+theorem jsonl_forward_reverse_text (parse : List Nat → Except ε α) (hp : IgnoresBreak parse)
+    (c : List Nat) (bs : Nat) (hbs : 1 ≤ bs) :
+    jsonlReverse parse true bs c = ((jsonlForwardT parse true c).1.reverse, none) := by
+  rw [jsonl_reverse parse c bs hbs, jsonl_forward_text parse hp c]
+
+/-- … and binary files whose lines are LF- or CRLF-separated -/
+theorem jsonl_forward_reverse_binary (parse : List Nat → Except ε α) (hp : IgnoresBreak parse)
+    (c : List Nat) (hcr : noLoneCR c = true) (bs : Nat) (hbs : 1 ≤ bs) :
+    jsonlReverse parse true bs c = ((jsonlForwardB parse true c).1.reverse, none) := by
+  rw [jsonl_reverse parse c bs hbs, jsonl_forward_binary parse hp c hcr, ← filterMap_linesOf]
+  by_cases hne : c = []
+  · subst hne; simp [linesOf_nil, sepLines, objOf_nil]
+  · rw [linesOf_eq_sepLines c hcr hne]
+
+/-- reverse mode does not depend on the block size, with or without `ignore_errors` -/
+theorem jsonl_blocksize_independent (parse : List Nat → Except ε α) (ig : Bool) (c : List Nat)
+    (bs₁ bs₂ : Nat) (h₁ : 1 ≤ bs₁) (h₂ : 1 ≤ bs₂) :
+    jsonlReverse parse ig bs₁ c = jsonlReverse parse ig bs₂ c := by
+  unfold jsonlReverse
+  rw [blocksize_independent c bs₁ bs₂ h₁ h₂]
+
+/-- without `ignore_errors`: if forward mode gets through the file without an error, so does
+    reverse mode, with the same objects reversed (binary, LF/CRLF-separated) -/
+theorem jsonl_strict_forward_reverse_binary (parse : List Nat → Except ε α) (hp : IgnoresBreak parse)
+    (c : List Nat) (hcr : noLoneCR c = true) (bs : Nat) (hbs : 1 ≤ bs)
+    (hok : (jsonlForwardB parse false c).2 = none) :
+    jsonlReverse parse false bs c = ((jsonlForwardB parse false c).1.reverse, none) := by
+  have h1 : AllOk parse (fileLinesB c) := allOk_of_consume_strict parse _ hok
+  have h2 : AllOk parse (fileLinesB' c) := by
+    unfold fileLinesB'
+    intro l hl
+    rcases List.mem_append.mp hl with hl | hl
+    · exact h1 l hl
+    · split at hl
+      · simp at hl; subst hl; exact okLine_nil parse
+      · cases hl
+  have h3 : AllOk parse (sepLines c) := (allOk_rel parse hp _ _ (fileLinesB'_rel c hcr)).mp h2
+  have h4 : AllOk parse (reverseIterLines c bs) := by
+    by_cases hne : c = []
+    · subst hne; rw [reverse_lines_empty]; intro l hl; cases hl
+    · rw [reverse_lines_separated c bs hbs hne hcr]; exact (allOk_reverse parse _).mpr h3
+  unfold jsonlReverse jsonlForwardB
+  rw [consume_strict_of_allOk parse _ h4, consume_strict_of_allOk parse _ h1]
+  exact jsonl_forward_reverse_binary parse hp c hcr bs hbs
+
+/-- the same for text-mode files, every content -/
+theorem jsonl_strict_forward_reverse_text (parse : List Nat → Except ε α) (hp : IgnoresBreak parse)
+    (c : List Nat) (bs : Nat) (hbs : 1 ≤ bs)
+    (hok : (jsonlForwardT parse false c).2 = none) :
+    jsonlReverse parse false bs c = ((jsonlForwardT parse false c).1.reverse, none) := by
+  have h1 : AllOk parse (fileLinesT false c) := allOk_of_consume_strict parse _ hok
+  have h3 : AllOk parse (bytesSplitlines c) := (allOk_rel parse hp _ _ (fileLinesT_rel false c)).mp h1
+  have h4 : AllOk parse (reverseIterLines c bs) := by
+    rw [reverse_lines c bs hbs]
+    apply (allOk_reverse parse _).mpr
+    unfold linesOf
+    intro l hl
+    rcases List.mem_append.mp hl with hl | hl
+    · exact h3 l hl
+    · split at hl
+      · simp at hl; subst hl; exact okLine_nil parse
+      · cases hl
+  unfold jsonlReverse jsonlForwardT
+  rw [consume_strict_of_allOk parse _ h4, consume_strict_of_allOk parse _ h1]
+  exact jsonl_forward_reverse_text parse hp c bs hbs
+
+/-! ## non-vacuity -/
+
+-- "a b<U+2028>c<CR><LF>": breaks of two kinds, ends with a break; ' 2','8' would be split by the old typo
+example : iterSplitlines [97, 32, 50, 56, 8232, 99, 13, 10] = [[97, 32, 50, 56], [99], []] := by decide
+example : ∀ c ∈ [97, 32, 50, 56, 8232, 99, 13, 10], isFS c = false := by decide
+example : pySplitlines [97, 32, 50, 56, 8232, 99, 13, 10] = [[97, 32, 50, 56], [99]] := by decide
+-- the hypothesis of `splitlines_spec` is needed: str.splitlines splits at U+001C, the regex does not
+example : iterSplitlines [97, 28, 98] ≠ pySplitlines [97, 28, 98] := by decide
+-- "\né\r\nb\n" with a block edge inside é (195 169) and between CR and LF
+example : reverseIterLines [10, 195, 169, 13, 10, 98, 10] 2 = [[], [98], [195, 169], []] := by decide
+example : noLoneCR [10, 195, 169, 13, 10, 98, 10] = true := by decide
+example : sepLines [10, 195, 169, 13, 10, 98, 10] = [[], [195, 169], [98], []] := by decide
+-- the former defects: a single line with a trailing newline; a file starting with a blank line
+example : reverseIterLines [97, 98, 99, 10] 4096 = [[], [97, 98, 99]] := by decide
+example : reverseIterLines [10, 98] 1 = [[98], []] := by decide
+-- a lone CR is a break for the code (bytes.splitlines) but not for `sepLines`: hypothesis needed
+example : reverseIterLines [97, 13, 98] 1 ≠ (sepLines [97, 13, 98]).reverse := by decide
+
+/-- a toy `json.loads` for the examples: strips trailing CR/LF, then accepts exactly the line "3" -/
+def toyParse (l : List Nat) : Except Unit Nat :=
+  if (l.reverse.dropWhile (fun c => c == 10 || c == 13)).reverse = [51] then .ok 3 else .error ()
+
+example : IgnoresBreak toyParse := by
+  intro x
+  simp [toyParse, List.reverse_append, List.dropWhile_cons]
+
+-- "\n3\n \nx\r\n3\n": blank lines, a corrupt line, CRLF; block size 5 (the former failure)
+example : jsonlForwardB toyParse true [10, 51, 10, 32, 10, 120, 13, 10, 51, 10] = ([3, 3], none) := by decide
+example : jsonlReverse toyParse true 5 [10, 51, 10, 32, 10, 120, 13, 10, 51, 10] = ([3, 3], none) := by decide
+example : (jsonlForwardB toyParse false [10, 51, 10, 32, 10, 51, 10]).2 = none := by decide
+example : (jsonlForwardB toyParse false [10, 51, 10, 120, 10, 51, 10]) = ([3], some ()) := by decide
 
 end C19
